@@ -1,10 +1,13 @@
 package main
 
 import (
+	"bytes"
 	"encoding/json"
 	"fmt"
+	"io"
 	"math/rand"
 	"strings"
+	"testing/iotest"
 	"time"
 
 	"github.com/tormoder/fit/dyncrc16"
@@ -199,6 +202,30 @@ func c14StreamTraces(c *Ctx) {
 			d := make([]byte, 66770)
 			rng.Read(d)
 			tr.Ops = append(tr.Ops, crcOp{Op: "checksum", Data: toInts(d), V: int(dyncrc16.Checksum(d))})
+		}
+		if i%4 == 1 {
+			// the hash is an io.Writer: feed it with io.Copy / io.CopyN from readers of
+			// different habits (byte at a time, data together with EOF, halves)
+			d := make([]byte, 1+rng.Intn(300))
+			rng.Read(d)
+			var src io.Reader = bytes.NewReader(d)
+			switch (i / 4) % 5 {
+			case 1:
+				src = iotest.OneByteReader(src)
+			case 2:
+				src = iotest.DataErrReader(src)
+			case 3:
+				src = iotest.HalfReader(src)
+			case 4:
+				src = io.LimitReader(iotest.DataErrReader(src), int64(len(d)))
+			}
+			var cn int64
+			if (i/4)%2 == 0 {
+				cn, _ = io.Copy(h, src)
+			} else {
+				cn, _ = io.CopyN(h, src, int64(len(d)))
+			}
+			tr.Ops = append(tr.Ops, crcOp{Op: "copy", Data: toInts(d), N: int(cn)}, crcOp{Op: "sum16", V: int(h.Sum16())})
 		}
 		for j := 0; j < n; j++ {
 			switch x := rng.Intn(10); {
